@@ -186,7 +186,40 @@ def check(ctx):
                 x = x[2][0]
             return x == P("contests")
 
+        def evcond(c_, el, inL, inR):
+            """membership test of the comprehension's contest in one of the two lists, and boolean combinations"""
+            if c_[0] == "cmp" and c_[1] in ("in", "not in") and c_[2] == ("sub", el, ("const", 1)):
+                raw = c_[3]
+                while raw[0] == "call" and ir.show(raw[1]).split(".")[-1] in ("list", "sorted", "tuple", "set", "frozenset") and raw[2]:
+                    raw = raw[2][0]
+                if raw not in (P("lhs_called_contests"), P("rhs_called_contests")):
+                    return None
+                v = inL if raw == P("lhs_called_contests") else inR
+                return v if c_[1] == "in" else not v
+            if c_[0] == "un" and c_[1] == "not":
+                v = evcond(c_[2], el, inL, inR)
+                return None if v is None else not v
+            if c_[0] == "bool":
+                vs = [evcond(x, el, inL, inR) for x in c_[2]]
+                if any(v is None for v in vs):
+                    return None
+                return all(vs) if c_[1] == "and" else any(vs)
+            return None
+
+        def evpositions(m, inL, inR):
+            """[i for i, contest in enumerate(contests) if <membership>]: is this contest's position in the list"""
+            if m[0] == "comp" and m[1] in ("list", "gen") and len(m[3]) == 1 and m[3][0][1] == ("call", ("global", "enumerate"), (P("contests"),), ()):
+                el = ("elem", m[3][0][1], m[4])
+                if m[2] != ("sub", el, ("const", 0)):
+                    return None
+                vs = [evcond(c_, el, inL, inR) for c_ in m[3][0][2]]
+                return None if any(v is None for v in vs) else all(vs)
+            return None
+
         def evmask(m, inL, inR):
+            pos = evpositions(m, inL, inR)
+            if pos is not None:
+                return pos
             if m[0] == "call" and ir.show(m[1]).endswith("isin") and (len(m[2]) == 2 or (m[1][0] == "attr" and len(m[2]) == 1)):
                 pandas_method = m[1][0] == "attr" and not ir.show(m[1]).startswith("numpy")
                 x, y = (m[1][1], m[2][0]) if pandas_method else (m[2][0], m[2][1])
@@ -222,6 +255,9 @@ def check(ctx):
                     member = inL if c_[2][2][0] == P("lhs_called_contests") else inR
                     if member and c_[1] in (">", "!=", ">=") :
                         return a_
+                if c_[0] == "cmp" and c_[2][0] == "call" and c_[2][1] == ("global", "len") and c_[2][2] and c_[3] == ("const", 0) and c_[1] in (">", "!="):
+                    if evpositions(c_[2][2][0], inL, inR):
+                        return a_  # this contest is one of the positions, so the list is not empty
                 return a_ if a_ == b_ else None
             if t[0] == "call" and t[1][0] == "attr" and t[1][2] in ("copy", "astype"):
                 return ev_(t[1][1], inL, inR)
